@@ -144,6 +144,15 @@ def r012_slicing(ctx, rule):
         ok = maps[0].data["key"] is pn and contains(cols[0].data["value"], lambda s: s is pv) and contains(cols[0].data["key"], lambda s: s is pn)
     ctx.ob(rule, rw.func, cols[0].node if cols else None, ok, "writer: all_data[col] = value and mapping[param] = col use the "
            "same column name, derived from the parameter name", construct="writer/reader column agreement")
+    if cols and ok:
+        nm = rw.params["name"]
+        b_ = {"n": nm, "p": pn}
+        alts = [Aw.spec(s_, b_) for s_ in ('f"{n}_{p}"', 'str(n) + "_" + str(p)', '"{0}_{1}".format(n, p)', '"{}_{}".format(n, p)')]
+        okn = any(Aw.C.canon(cols[0].data["key"]) is Aw.C.canon(a_) for a_ in alts)
+        ctx.ob(rule, rw.func, cols[0].node, okn, "the column name is '<metric key>_<parameter name>', so two metrics (even of the same "
+               "function) never share a sample-parameter column" if okn else
+               f"the sample-parameter column is named {Aw.show(cols[0].data['key'], 120)}: metrics registered under different keys can "
+               "collide and receive each other's per-sample parameters", construct="sample param column name")
     am = [e for e in rw.events if e.kind == "call" and e.data.get("constructs") == AMF]
     ok = len(am) == 1 and kw(am[0], "func") is rw.params["func"] and root_of(kw(am[0], "kw_argument_mapping")).op == "dict" \
         and kw(am[0], "positional_argument_names") is mk("list", (const("y_true"), const("y_pred")))
